@@ -5,7 +5,7 @@ from .. import cachegen
 
 class C06(CacheProp):
     pid = "C06"
-    profiles = ["roomy", "roomy", "roomy", "basic", "roomy", "ttl", "roomy", "tinybuf"]
+    profiles = ["roomy", "roomy", "roomyshould", "basic", "roomy", "ttl", "roomy", "tinybuf", "roomyshould"]
     rule = ("gate-controlled single-client histories; in the 'roomy' profile (20 keys, cost <= 200 (+56), MaxCost 10^6: the "
             "total cost of the key set fits) every result is additionally checked against a reference map with an "
             "explicit FIFO of pending writes: a Set that returned true for a key neither resident nor pending must be "
@@ -21,7 +21,7 @@ class C06(CacheProp):
     def gen(self, rng, n, ctx):
         cases = cachegen.gen_cases(rng, n, ctx, self.profiles)
         for c in cases:
-            if "profile:roomy" not in c.tags:
+            if not any(t.startswith("profile:roomy") for t in c.tags):
                 continue
             ops = list(c.ops)
             if "close" in ops:
@@ -66,8 +66,9 @@ class C06(CacheProp):
     def _walk(self, case, il):
         """reference map with an explicit FIFO of pending writes; -> (failures, number of claims checked)"""
         fails, claims = [], 0
-        if "profile:roomy" not in case.tags and not any(t.startswith("corpus:") for t in case.tags):
+        if not any(t.startswith("profile:roomy") for t in case.tags) and not any(t.startswith("corpus:") for t in case.tags):
             return fails, claims
+        mode = case.args[4]                # Config.ShouldUpdate: "0" none, "1" only a larger value id, "2" never
         if int(case.args[0]) < 10 ** 5:
             return fails, claims
         tr = cachegen.Trace(case, il)
@@ -123,9 +124,12 @@ class C06(CacheProp):
                     if h in dirty:
                         fifo.append((n, "unk", h, v, exp))   # outcome unknown, but it is pending behind what is queued
                     elif h in ref and (ref[h][1] == 0 or now < ref[h][1]) and not any(f[2] == h for f in fifo):
-                        ref[h] = (v, exp)                # overwrite of a resident key: visible at once
-                    elif h in ref and not any(f[2] == h for f in fifo):
-                        # its TTL has elapsed (swept or not): to Get it is not resident, and nothing is pending - whether the
+                        if not (mode == "2" or (mode == "1" and v <= ref[h][0])):
+                            ref[h] = (v, exp)            # overwrite of a resident key: visible at once
+                        # refused by ShouldUpdate: the resident value stays (the refused one is turned away later)
+                    elif h in ref and now > ref[h][1] and mode == "0" and not any(f[2] == h for f in fifo):
+                        # (no ShouldUpdate configured: a configured one is also consulted against a dead, unswept entry and may
+                        # refuse) its TTL has elapsed (swept or not): to Get it is not resident, and nothing is pending - whether the
                         # code overwrites the dead entry in place or inserts anew, the value must be there after Wait
                         ref.pop(h)
                         fifo.append((n, "new", h, v, exp))
